@@ -263,3 +263,72 @@ Theorem C19_den_frame_guard_refuted :
   /\ impl_carried code_guard anim_file false 3 = AllNative.
 Proof. exact frame_guard_refuted. Qed.
 Print Assumptions C19_den_frame_guard_refuted.
+
+(** * Round 8 — the transparency field, pixel-exact (model/FmtDenPix.v) *)
+From TI Require Import model.FmtDenPix proofs.FmtDenPixProofs.
+
+(** the 8-bit threshold the code derives from the digits of a [threshold] field
+    (round-half-even of 255 * 0.d1...dk, in exact arithmetic) is a nearest integer to the
+    exact product — and THE nearest one unless the product is exactly k + 1/2 *)
+Theorem C19_den_threshold_exact : forall ds,
+  let num := int_of ds in let den := pow10 (length ds) in
+  level_ok (thr8 num den) num den = true
+  /\ (forall T, (2 * ((255 * num) mod den) <> den)%Z -> level_ok T num den = true -> T = thr8 num den).
+Proof. exact den_threshold_exact. Qed.
+Print Assumptions C19_den_threshold_exact.
+
+(** hence, for EVERY transparency setting, terminal background, alpha level and observation,
+    the code's rule (alpha below the 8-bit threshold: the terminal shows through; else opaque
+    over the backdrop) satisfies the exact documented rule (no level exempt but the lower
+    neighbour of an exact tie) *)
+Theorem C19_den_threshold_pixels : forall t bg p o,
+  impl_pixel thr8 (doc_eff t bg) p o = true -> pixel_ok_x (doc_eff t bg) p o = true.
+Proof. exact impl_pixel_refines. Qed.
+Print Assumptions C19_den_threshold_pixels.
+
+(** the excluded design (truncation) is the code whenever the fractional part of the product
+    is below one half (no run with such a threshold can see it) ... *)
+Theorem C19_den_trunc_invisible : forall num den,
+  (2 * ((255 * num) mod den) < den)%Z -> trunc8 num den = thr8 num den.
+Proof. exact trunc_invisible. Qed.
+Print Assumptions C19_den_trunc_invisible.
+
+(** ... and under '#.999' it shows a pixel of alpha 254/255 < .999 as opaque *)
+Theorem C19_den_trunc_refuted :
+  trunc8 999 1000 = 254%Z /\ level_ok 254 999 1000 = false /\ thr8 999 1000 = 255%Z
+  /\ impl_pixel trunc8 thr_999 px_254 (Some (254, 0, 0)%Z) = true
+  /\ pixel_ok_x thr_999 px_254 (Some (254, 0, 0)%Z) = false
+  /\ pixel_ok_x thr_999 px_254 None = true
+  /\ impl_pixel thr8 thr_999 px_254 None = true.
+Proof. exact trunc_refuted. Qed.
+Print Assumptions C19_den_trunc_refuted.
+
+(** whenever the read-from-file gate of ITerm2Image transmits the source file VERBATIM (any
+    style, alpha setting, source, method, policy), the documented treatment of transparency
+    leaves every pixel such a file can hold exactly as it is *)
+Theorem C19_den_verbatim_only_when_identity : forall sty a s method bg p,
+  impl_verbatim code_gate sty a s method = true ->
+  px_of_mode (g_mode s) p = true ->
+  gpixel_ok (doc_eff (denote_alpha a) bg) p (as_is p) = true.
+Proof. exact verbatim_only_when_identity. Qed.
+Print Assumptions C19_den_verbatim_only_when_identity.
+
+(** the excluded gate ("alpha is not None") is the code unless read_from_file is on, the
+    source is a readable file WITH an alpha channel and the setting is a colour ... *)
+Theorem C19_den_notnone_gate_invisible : forall sty a s method,
+  g_rff s = false \/ g_readable s = false \/ g_mode s <> MAlpha \/ is_str a = false ->
+  impl_verbatim notnone_gate sty a s method = impl_verbatim code_gate sty a s method.
+Proof. exact notnone_gate_invisible. Qed.
+Print Assumptions C19_den_notnone_gate_invisible.
+
+(** ... and then it transmits the file's transparent pixel where '#00ff00' denotes green *)
+Theorem C19_den_notnone_gate_refuted :
+  impl_verbatim notnone_gate ITerm2 a_green rgba_file 2 = true
+  /\ impl_verbatim code_gate ITerm2 a_green rgba_file 2 = false
+  /\ doc_eff (denote_alpha a_green) None = EUnder 65280
+  /\ gpixel_ok (EUnder 65280) px_clear (as_is px_clear) = false
+  /\ gpixel_ok (EUnder 65280) px_clear (0, 255, 0, 255)%Z = true
+  /\ impl_gpixel notnone_gate ITerm2 None a_green rgba_file 2 px_clear (as_is px_clear) = true
+  /\ impl_gpixel code_gate ITerm2 None a_green rgba_file 2 px_clear (0, 255, 0, 255)%Z = true.
+Proof. exact notnone_gate_refuted. Qed.
+Print Assumptions C19_den_notnone_gate_refuted.
